@@ -405,17 +405,35 @@ func (c *ctx) chargesAfter(u *universe, seq changeSeq, sizes []int) {
 		early = 1
 		c.count("change/delivered-before-container-creation")
 	}
+	sameObject := len(changes) > 0 && c16Toggle%3 == 0
+	if sameObject {
+		c.count("change/announced-through-one-map-object-edited-in-place")
+	}
 	mk := func() *hWorld {
 		u.earlyGas = nil
 		for _, ch := range changes[:early] {
 			u.earlyGas = append(u.earlyGas, cloneGasMap(ch))
 		}
-		w := u.stdWorld(2, 0, cloneGasMap(seq.Init))
+		first := cloneGasMap(seq.Init)
+		w := u.stdWorld(2, 0, first)
 		u.earlyGas = nil
 		u.populate(w)
 		for _, ch := range changes[early:] {
+			if sameObject {
+				// the node announces every schedule through ONE map object that it edits in place (the object the factory was built with)
+				for k := range first {
+					delete(first, k)
+				}
+				for k, v := range cloneGasMap(ch) {
+					first[k] = v
+				}
+			}
 			for _, sh := range w.shards {
-				sh.factory.GasScheduleChange(cloneGasMap(ch))
+				if sameObject {
+					sh.factory.GasScheduleChange(first)
+				} else {
+					sh.factory.GasScheduleChange(cloneGasMap(ch))
+				}
 			}
 		}
 		w.gasMap = inForce // what the Coq case carries as the schedule in force
